@@ -143,7 +143,7 @@ func init() {
 	register(&PropDef{
 		ID:    "C02",
 		Level: "model_checking",
-		Rule: "scenarios: blocks x sequences x concurrency grid and two plans on one Workstream, family F-seq (every tolerance value incl. -1, every failing position, second block) and sharp scenarios; every order of visible operations " +
+		Rule: "scenarios: blocks x sequences x concurrency grid and two plans on one Workstream, family F-seq (every tolerance value incl. -1, every failing position, second block), sharp scenarios and the crash layer (every durable state of crash scenarios with three sequences or two blocks is restarted, same invariant during recovery); every order of visible operations " +
 			"(storage writes, plugin entries/returns, API calls) within the deviation bound; non-trivial = execution in which at some state two different logical threads were enabled",
 		Assumptions: []string{"a free worker-pool runner always exists (64 runners)", "engine internals between two visible operations are atomic (I/O granularity)"},
 		NewMon:      func(sc *Scenario) Monitor { return monC02{} },
@@ -163,6 +163,16 @@ func init() {
 			for _, sc := range FamilySharp(tier) {
 				items = append(items, explore("C02", sc, b, true))
 			}
+			// the bound holds for a recovered plan as well: every durable state of crash scenarios with more unfinished
+			// sequences than the concurrency allows is restarted and the same state invariant watched
+			var crash []*Scenario
+			for _, sc := range FamilyCrash(tier) {
+				n := sc.Name
+				if strings.HasPrefix(n, "crash-b1-n3-") || strings.HasPrefix(n, "crash-b2-n3-") || strings.HasPrefix(n, "crash-b2-n2-a2-") || strings.HasPrefix(n, "crash-2fail-") {
+					crash = append(crash, sc)
+				}
+			}
+			items = append(items, crashItems("C02", tier, crash)...)
 			return items
 		},
 	})
